@@ -1,2 +1,18 @@
-(* C18.  Theorems are added here as they are proved. *)
-From PJ.Model Require Import Base.
+(* C18 -- a statement too big for the lookup tables is refused, not corrupted. *)
+From PJ.Model Require Import Base Lookup Terms Encoder.
+From PJ.Proofs Require Import EncoderProofs.
+
+(* The guard: as soon as the distinct keys a statement asks of one table exceed its size, the
+   request is refused, before the table is touched. *)
+Theorem C18_guard_refuses :
+  forall (table : slenc) (keys : list str) (k : str),
+    lmax table < nlen (set_add k keys) -> entry_index table keys k = Err Conformance.
+Proof. exact guard_refuses. Qed.
+Print Assumptions C18_guard_refuses.
+
+(* Whenever an entry request succeeds the statement's key set still fits the table and holds the key. *)
+Theorem C18_accepted_keys_fit :
+  forall (table : slenc) (keys keys' : list str) (k : str) (t' : slenc) (oe : option N),
+    entry_index table keys k = Ok (t', keys', oe) -> nlen keys' <= lmax table /\ mem_str k keys' = true.
+Proof. exact guard_counts. Qed.
+Print Assumptions C18_accepted_keys_fit.
